@@ -8,11 +8,10 @@ Model: `FP/Model/Parser.lean` (`readGraph`, `readGraphs` on classified lines; `i
 are oracle parameters).  Vocabulary: `FP/Spec/GraphFile.lean`.
 
 * (a) `parse_render` + `built_graph_exact` / `built_graph_distinct` / `constraints_spec` / `split_lossless`;
-* (b) `malformed_rejected_partial` — the full statement `malformed_rejected_FullStatement` is **false for the code
-  as it is**: `malformed_rejected_false` (two concrete files), and in general `zero_vertex_accepts_anything`:
-  after a vertex-count line `0` the function returns at once, so neither the constraints nor the rest of the
-  block are looked at;
-* (c) `counts_match`;
+* (b) `malformed_rejected` — full strength since fix 1264962 of /repo (a vertex-count line `0` no longer makes
+  `read_graph` return before looking at constraints and at the rest of the block); the two files that used to be
+  accepted are kept as regression examples `wConstraint_rejected`, `wEdge_rejected`;
+* (c) `counts_match` (zero-vertex blocks included: `n = m = 0`, `w = 0`);
 * format facts worth knowing: `leading_lines_ignored`, `no_header_no_graphs`.
 -/
 namespace FP.Props.C20
@@ -22,10 +21,11 @@ variable {S W Wd : Type} [DecidableEq S]
 /-- **C20 (a).** For every file description `d` (any number of blocks, any number of blank lines at the top)
 whose blocks are well-formed — `WFBlock`: at least one `#` line; the vertex-count line converts with `int()`; the
 weight token of every edge line converts with `float()`; every edge of every described constraint is listed;
-a zero-vertex block lists no edge and a non-zero block describes a graph with a source and a sink —
+a zero-vertex block has no constraint and only blank lines in its body, a non-zero block describes a graph with
+a source and a sink —
 `read_graphs` returns, block by block, exactly the described graphs: `graphOf` = the listed edges inserted in
 order (`built_graph_exact`), the first header text as id, the distinct `#S` lines as constraints, `n`/`m` the node
-and edge counts, `w` the width oracle applied to the graph. -/
+and edge counts, `w` the width oracle applied to the graph (the literal 0 for a zero-vertex block). -/
 theorem parse_render (o : Oracles S W Wd) (d : FileDesc S) (h : ∀ b ∈ d.blocks, WFBlock o b) :
     readGraphs o (render d) = .ok (d.blocks.map (graphOf o)) :=
   FP.Parser.readGraphs_render o d h
@@ -56,75 +56,51 @@ theorem split_lossless (ls : List (Line S)) :
     (splitBlocks (ls.length + 1) ls).flatten = ls.dropWhile (fun l => !l.isHash) :=
   FP.Parser.splitBlocks_flatten _ ls (Nat.lt_succ_self _)
 
-/-- **C20 (b), full statement (false for the code as it is).** -/
-def malformed_rejected_FullStatement : Prop :=
-  ∀ (o : Oracles String Int Unit) (ls : List (Line String)),
-    Malformed o ls → ∃ e, readGraph o ls = .error e
+/-- **C20 (b), full strength.** A malformed block (`Malformed`: no / non-numeric vertex-count line, an edge
+line with ≠ 3 tokens, a non-numeric weight, a `#S` line naming an edge that no edge line lists) makes `read_graph`
+raise `ValueError` — whatever the vertex count, `0` included. -/
+theorem malformed_rejected (o : Oracles S W Wd) (ls : List (Line S)) (hm : Malformed o ls) :
+    ∃ e, readGraph o ls = .error e :=
+  FP.Parser.malformed_error o ls hm
 
-/-- **C20 (b), proven part**: a malformed block (`Malformed`: no / non-numeric vertex-count line, an edge line
-with ≠ 3 tokens, a non-numeric weight, a `#S` line naming an edge that no edge line lists) makes `read_graph`
-raise `ValueError` — *provided the vertex-count line is not `0`*. -/
-theorem malformed_rejected_partial (o : Oracles S W Wd) (ls : List (Line S)) (hm : Malformed o ls)
-    (hz : ¬ ZeroCount o ls) : ∃ e, readGraph o ls = .error e :=
-  FP.Parser.malformed_error o ls hm hz
-
-/-- whatever precedes and follows it, a vertex-count line `0` makes `read_graph` return the empty graph with
-the header's constraints unvalidated and without `n`, `m`, `w` -/
-theorem zero_vertex_accepts_anything (o : Oracles S W Wd) (ls : List (Line S)) (h : ZeroCount o ls) :
-    readGraph o ls = .ok { nodes := [], edges := [], id := (scanHeader (hashPart ls)).headers.head?,
-                           constraints := (scanHeader (hashPart ls)).cons, n := none, m := none, w := none } := by
-  obtain ⟨cl, body, h1, h2⟩ := h
-  exact FP.Parser.readGraph_zero o ls cl body h1 h2
-
-/-- python's `int()` / `float()` on the strings of the witness files -/
-def witnessOracles : Oracles String Int Unit :=
+/-- python's `int()` / `float()` on the strings of the regression files -/
+def witnessOracles : Oracles String Int Nat :=
   { parseInt := fun s => if s = "0" then some 0 else none
     parseFloat := fun _ => none
-    width := fun _ _ => () }
+    width := fun _ _ => 1
+    zeroWidth := 0 }
 
-/-- the file `"# g\n#S a b\n0\n"` -/
+/-- the file `"# g\n#S a b\n0\n"` (accepted before fix 1264962) -/
 def wConstraint : List (Line String) := [.header "g", .subpath ["a", "b"], .data "0" ["0"]]
-/-- the file `"# g\n0\na b\n"` -/
+/-- the file `"# g\n0\na b\n"` (accepted before fix 1264962) -/
 def wEdge : List (Line String) := [.header "g", .data "0" ["0"], .data "a b" ["a", "b"]]
 
-theorem wConstraint_accepted :
-    readGraph witnessOracles wConstraint =
-      .ok { nodes := [], edges := [], id := some "g", constraints := [[("a", "b")]],
-            n := none, m := none, w := none } := by decide
+theorem wConstraint_rejected : readGraph witnessOracles wConstraint = .error .zeroWithConstraints := by decide
 
-theorem wEdge_accepted :
-    readGraph witnessOracles wEdge =
-      .ok { nodes := [], edges := [], id := some "g", constraints := [], n := none, m := none, w := none } := by
-  decide
+theorem wEdge_rejected : readGraph witnessOracles wEdge = .error .zeroWithData := by decide
 
-theorem wConstraint_malformed : Malformed witnessOracles wConstraint :=
+/-- both regression files satisfy the hypothesis of `malformed_rejected` (non-vacuity in the zero-vertex case) -/
+example : Malformed witnessOracles wConstraint :=
   .absentEdge ["a", "b"] "a" "b" (by decide) (by decide) (by
     intro t ws
     have : (countPart wConstraint).tail = [] := by decide
     rw [this]; exact List.not_mem_nil)
 
-theorem wEdge_malformed : Malformed witnessOracles wEdge :=
+example : Malformed witnessOracles wEdge :=
   .badEdgeLine "a b" ["a", "b"] (by decide) (by decide)
 
-/-- **the full statement of (b) is false**: both witness blocks are malformed and accepted -/
-theorem malformed_rejected_false : ¬ malformed_rejected_FullStatement := by
-  intro h
-  obtain ⟨e, he⟩ := h witnessOracles wConstraint wConstraint_malformed
-  rw [wConstraint_accepted] at he
-  cases he
-
 /-- **C20 (c).** Whenever `read_graph` returns: the graph has no node and no edge key twice and its nodes are
-exactly the endpoints of its edges, so `nodes.length` / `edges.length` are the node / edge counts; either the
-vertex-count line was `0` and the graph is empty *and `n`, `m`, `w` are not stored at all*, or `n`, `m` equal
-those counts, `w` is the width oracle on this graph, and the edges are exactly the listed edge lines (last
-weight wins). -/
+exactly the endpoints of its edges, so `nodes.length` / `edges.length` are the node / edge counts; `n` and `m`
+are stored and equal those counts; the edges are exactly the edge lines listed below the vertex-count line (last
+weight wins); if the vertex-count line was `0` the graph is empty, has no constraint and `w` is the literal 0,
+otherwise `w` is the width oracle on this graph. -/
 theorem counts_match (o : Oracles S W Wd) (ls : List (Line S)) (g : PGraph S W Wd)
     (h : readGraph o ls = .ok g) :
     (g.nodes.Nodup ∧ (g.edges.map key).Nodup ∧ ∀ x, x ∈ g.nodes ↔ ∃ e ∈ g.edges, x = e.1 ∨ x = e.2.1) ∧
-    ((ZeroCount o ls ∧ g.nodes = [] ∧ g.edges = [] ∧ g.n = none ∧ g.m = none ∧ g.w = none) ∨
-     (¬ ZeroCount o ls ∧ g.n = some g.nodes.length ∧ g.m = some g.edges.length ∧
-        g.w = some (o.width g.nodes g.edges) ∧
-        ∀ x y z, (x, y, z) ∈ g.edges ↔ lastWeight (lineEdges o (countPart ls).tail) (x, y) = some z)) := by
+    g.n = some g.nodes.length ∧ g.m = some g.edges.length ∧
+    (∀ x y z, (x, y, z) ∈ g.edges ↔ lastWeight (lineEdges o (countPart ls).tail) (x, y) = some z) ∧
+    (ZeroCount o ls → g.nodes = [] ∧ g.edges = [] ∧ g.constraints = [] ∧ g.w = some o.zeroWidth) ∧
+    (¬ ZeroCount o ls → g.w = some (o.width g.nodes g.edges)) := by
   obtain ⟨hwf, hr⟩ := FP.Parser.readGraph_ok_shape o ls g h
   exact ⟨⟨hwf.nodesNodup, hwf.keysNodup, hwf.nodesEq⟩, hr⟩
 
@@ -168,7 +144,8 @@ y t 4
 def exO : Oracles String Int Nat :=
   { parseInt := fun s => [("3", (3 : Int)), ("4", 4), ("0", 0)].lookup s
     parseFloat := fun s => [("1", (1 : Int)), ("2", 2), ("3", 3), ("4", 4), ("5", 5)].lookup s
-    width := fun _ es => es.length }
+    width := fun _ es => es.length
+    zeroWidth := 0 }
 
 def exFile : FileDesc String :=
   { lead := 1
@@ -191,14 +168,13 @@ example : readGraphs exO (render exFile) = .ok [
       constraints := [[("a", "b"), ("b", "c")]], n := some 3, m := some 2, w := some 2 },
     { nodes := ["s", "x", "y", "t"], edges := [("s", "x", 1), ("x", "y", 2), ("y", "x", 3), ("y", "t", 4)],
       id := some "cyclic", constraints := [], n := some 4, m := some 4, w := some 4 },
-    { nodes := [], edges := [], id := some "empty", constraints := [], n := none, m := none, w := none } ] := by
+    { nodes := [], edges := [], id := some "empty", constraints := [], n := some 0, m := some 0, w := some 0 } ] := by
   rw [parse_render exO exFile exFile_wf]; decide
 
-/-- the malformed hypotheses are satisfiable outside the zero-vertex case: the same first block with the edge
+/-- the malformed hypotheses are satisfiable in the non-zero case too: the same first block with the edge
 line `b c 2` cut to `b c` -/
 example : ∃ e, readGraph exO [.header "graph 1", .subpath ["a", "b", "c"], .data "3" ["3"],
     .data "a b 1" ["a", "b", "1"], .data "b c" ["b", "c"]] = .error e :=
-  malformed_rejected_partial exO _ (.badEdgeLine "b c" ["b", "c"] (by decide) (by decide))
-    (by rintro ⟨cl, body, h1, h2⟩; revert h2; cases h1; decide)
+  malformed_rejected exO _ (.badEdgeLine "b c" ["b", "c"] (by decide) (by decide))
 
 end FP.Props.C20
